@@ -1,1 +1,887 @@
-fn main(){}
+//! pcmon: runtime monitor for property C20 "parser combinators honour their backtracking and
+//! error contract". Runs the real rusty_pc combinators on generated parser expressions, watches
+//! every node with an observer (local contract clauses) and compares the root result with a
+//! denotational model of the documented semantics.
+//!
+//!   pcmon --tier quick|thorough --seed N --out FILE
+//!         [--threads T]        worker threads (default 16)
+//!         [--random N]         number of random expressions of depth 2-4 (quick 300000, thorough 2000000)
+//!         [--depth2-budget N]  how many expressions of the fixed depth<=2 enumeration order to run (thorough)
+//!         [--fuel N]           logical fuel = node invocations per run (default 10000)
+//!         [--no-shortcut]      burn the fuel literally instead of stopping a repetition that is provably
+//!                              repeating an identical iteration (results are identical, only slower)
+//!   pcmon --replay '<expr>' '<input>'     exit code 1 if the case violates
+//!   pcmon --miri-subset                   ~2000 expressions x 4 inputs, single thread (for cargo miri run)
+//!
+//! Verdicts never depend on wall-clock time.
+mod expr;
+mod json;
+mod model;
+mod real;
+mod types;
+
+use std::cell::Cell;
+use std::collections::{BTreeMap, HashMap, HashSet};
+use std::hash::{Hash, Hasher};
+use std::panic::{AssertUnwindSafe, catch_unwind};
+use std::sync::atomic::{AtomicU64, Ordering};
+use std::time::Instant;
+
+use expr::{Expr, N_OPS, OPS, Op, Rng};
+use json::J;
+use real::{Real, Stat, Viol};
+use types::Res;
+
+/// Logical fuel: node invocations per run (real and model alike).
+static FUEL_CFG: std::sync::atomic::AtomicU32 = std::sync::atomic::AtomicU32::new(10_000);
+#[allow(non_snake_case)]
+fn FUEL() -> u32 {
+    FUEL_CFG.load(Ordering::Relaxed)
+}
+/// thresholds of the "fuel used by terminating runs" histogram
+const FUEL_BUCKETS: [u32; 6] = [50, 100, 250, 500, 1000, 2500];
+const MOVED: &str = ":after-moved-soft-child";
+
+// ---------------------------------------------------------------------------------------------
+// Judging one (expression, input) run
+// ---------------------------------------------------------------------------------------------
+
+/// Stable failure signature.
+#[derive(Clone, PartialEq, Eq, Hash, PartialOrd, Ord, Debug)]
+struct Sig {
+    /// root mismatch: (outermost combinator, kind)
+    root: Option<(&'static str, &'static str)>,
+    /// local violation (or, for a root mismatch, the first local violation of the same run)
+    local: Option<(&'static str, &'static str)>,
+    /// a descendant of the offending node failed softly after moving the position
+    moved: bool,
+}
+
+impl Sig {
+    fn render(&self) -> String {
+        let mut s = String::new();
+        match (self.root, self.local) {
+            (Some((op, kind)), via) => {
+                s.push_str(&format!("root:{}:{}", op, kind));
+                if let Some((c, clause)) = via {
+                    s.push_str(&format!(":via:{}:{}", c, clause));
+                }
+            }
+            (None, Some((c, clause))) => s.push_str(&format!("{}:{}", c, clause)),
+            (None, None) => s.push_str("?"),
+        }
+        if self.moved {
+            s.push_str(MOVED);
+        }
+        s
+    }
+}
+
+enum Verdict {
+    BothDiverged,
+    Judged(Vec<(Sig, String)>),
+}
+
+/// Compares the real outcome with the model and turns the local violations into signatures.
+fn judge(e: &Expr, real: &Res, model: &Res, viols: &[Viol], moved_soft_in_run: bool) -> Verdict {
+    let root_op = e.op.comb();
+    let mut out: Vec<(Sig, String)> = vec![];
+    let root_sig = |kind: &'static str, via: Option<&Viol>| Sig {
+        root: Some((root_op, kind)),
+        local: via.map(|v| (v.op.comb(), v.clause)),
+        moved: moved_soft_in_run,
+    };
+    match (real, model) {
+        (Res::Diverged, Res::Diverged) => return Verdict::BothDiverged,
+        (Res::Panic(m), _) => {
+            out.push((root_sig("panic", None), format!("real parser panicked: {}", m)));
+            return Verdict::Judged(out);
+        }
+        _ => {}
+    }
+    // local violations (when only the real run diverged these are the ones seen before the fuel ran out)
+    for v in viols {
+        out.push((Sig { root: None, local: Some((v.op.comb(), v.clause)), moved: v.moved_soft_child }, v.what()));
+    }
+    let kind = match (real, model) {
+        (Res::Diverged, _) => Some("only-real-diverges"),
+        (_, Res::Diverged) => Some("only-model-diverges"),
+        (Res::Ok(v1, p1), Res::Ok(v2, p2)) => {
+            if v1 != v2 {
+                Some("value")
+            } else if p1 != p2 {
+                Some("position")
+            } else {
+                None
+            }
+        }
+        (Res::Soft(e1, p1), Res::Soft(e2, p2)) => {
+            if e1 != e2 {
+                Some("error-id")
+            } else if p1 != p2 {
+                Some("position")
+            } else {
+                None
+            }
+        }
+        (Res::Fatal(e1), Res::Fatal(e2)) => {
+            if e1 != e2 {
+                Some("error-id")
+            } else {
+                None
+            }
+        }
+        _ => Some("class"),
+    };
+    if let Some(kind) = kind {
+        out.push((root_sig(kind, viols.first()), format!("root mismatch ({}): real {}, model {}", kind, real, model)));
+    }
+    Verdict::Judged(out)
+}
+
+// ---------------------------------------------------------------------------------------------
+// Accumulators
+// ---------------------------------------------------------------------------------------------
+
+#[derive(Clone, PartialEq, Eq, PartialOrd, Ord)]
+struct Witness {
+    size: usize,
+    input_len: usize,
+    expr: String,
+    input: String,
+    what: String,
+}
+
+const WITNESSES_PER_SIG: usize = 3;
+
+#[derive(Default)]
+struct Acc {
+    evaluations: u64,
+    expressions: u64,
+    skipped_invalid: u64,
+    both_diverged: u64,
+    node_events: u64,
+    max_fuel_used: u32,
+    fuel_hist: [u64; 6],
+    stats: Vec<Stat>,
+    nontrivial_enumerated: u64,
+    sig_counts: HashMap<Sig, u64>,
+    witnesses: HashMap<Sig, Vec<Witness>>,
+    nontrivial: HashSet<u64>,
+}
+
+impl Acc {
+    fn new() -> Acc {
+        Acc { stats: vec![Stat::default(); N_OPS], ..Default::default() }
+    }
+
+    fn record(&mut self, sig: Sig, e: &Expr, size: usize, input: &[char], what: String) {
+        *self.sig_counts.entry(sig.clone()).or_insert(0) += 1;
+        let list = self.witnesses.entry(sig).or_default();
+        if list.len() == WITNESSES_PER_SIG {
+            let worst = list.last().unwrap();
+            if (size, input.len()) >= (worst.size, worst.input_len) {
+                return;
+            }
+        }
+        let w = Witness { size, input_len: input.len(), expr: e.render(), input: input.iter().collect(), what };
+        if !list.contains(&w) {
+            list.push(w);
+            list.sort();
+            list.truncate(WITNESSES_PER_SIG);
+        }
+    }
+
+    fn merge(&mut self, o: Acc) {
+        self.evaluations += o.evaluations;
+        self.expressions += o.expressions;
+        self.skipped_invalid += o.skipped_invalid;
+        self.both_diverged += o.both_diverged;
+        self.node_events += o.node_events;
+        self.nontrivial_enumerated += o.nontrivial_enumerated;
+        self.max_fuel_used = self.max_fuel_used.max(o.max_fuel_used);
+        for (a, b) in self.fuel_hist.iter_mut().zip(o.fuel_hist.iter()) {
+            *a += b;
+        }
+        for (a, b) in self.stats.iter_mut().zip(o.stats.iter()) {
+            a.runs += b.runs;
+            a.ok += b.ok;
+            a.soft += b.soft;
+            a.fatal += b.fatal;
+            a.backtracks += b.backtracks;
+        }
+        for (k, v) in o.sig_counts {
+            *self.sig_counts.entry(k).or_insert(0) += v;
+        }
+        for (k, v) in o.witnesses {
+            let list = self.witnesses.entry(k).or_default();
+            for w in v {
+                if !list.contains(&w) {
+                    list.push(w);
+                }
+            }
+            list.sort();
+            list.truncate(WITNESSES_PER_SIG);
+        }
+        self.nontrivial.extend(o.nontrivial);
+    }
+}
+
+thread_local! {
+    /// true while the code under test runs: its panics are findings, not internal errors
+    static IN_REAL: Cell<bool> = const { Cell::new(false) };
+}
+
+fn compile(e: &Expr) -> Result<Real, String> {
+    IN_REAL.with(|f| f.set(true));
+    let r = catch_unwind(AssertUnwindSafe(|| Real::compile(e)));
+    IN_REAL.with(|f| f.set(false));
+    r.map_err(|p| {
+        p.downcast_ref::<String>().cloned().or_else(|| p.downcast_ref::<&str>().map(|s| s.to_string())).unwrap_or_default()
+    })
+}
+
+fn run_real(real: &mut Real, input: &[char]) -> Res {
+    IN_REAL.with(|f| f.set(true));
+    let r = real.run(input, FUEL());
+    IN_REAL.with(|f| f.set(false));
+    r
+}
+
+/// Runs one expression over all inputs and judges every run.
+fn process(e: &mut Expr, inputs: &[Vec<char>], acc: &mut Acc, enumerated: bool) {
+    let size = e.number();
+    acc.expressions += 1;
+    let mut real = match compile(e) {
+        Ok(r) => r,
+        Err(msg) => {
+            let sig = Sig { root: Some((e.op.comb(), "panic-on-build")), local: None, moved: false };
+            acc.record(sig, e, size, &[], format!("building the real parser panicked: {}", msg));
+            return;
+        }
+    };
+    for input in inputs {
+        let r = run_real(&mut real, input);
+        let m = model::run(e, input, FUEL());
+        let verdict = {
+            let viols = real.st.viol.borrow();
+            judge(e, &r, &m, &viols, real.st.moved_soft.get())
+        };
+        match verdict {
+            Verdict::BothDiverged => acc.both_diverged += 1,
+            Verdict::Judged(list) => {
+                acc.evaluations += 1;
+                if !matches!(r, Res::Diverged | Res::Panic(_)) {
+                    let used = FUEL() - real.st.fuel_left();
+                    acc.max_fuel_used = acc.max_fuel_used.max(used);
+                    for (b, t) in acc.fuel_hist.iter_mut().zip(FUEL_BUCKETS.iter()) {
+                        if used > *t {
+                            *b += 1;
+                        }
+                    }
+                }
+                for (sig, what) in list {
+                    acc.record(sig, e, size, input, what);
+                }
+            }
+        }
+        if matches!(r, Res::Panic(_)) {
+            // the parser state is unknown after a panic: rebuild
+            fold_stats(&real, acc);
+            match compile(e) {
+                Ok(r2) => real = r2,
+                Err(_) => return,
+            }
+        }
+    }
+    if real.st.nontrivial.get() {
+        if enumerated {
+            // enumerated expressions are distinct by construction
+            acc.nontrivial_enumerated += 1;
+        } else {
+            let mut h = std::collections::hash_map::DefaultHasher::new();
+            e.render().hash(&mut h);
+            acc.nontrivial.insert(h.finish());
+        }
+    }
+    fold_stats(&real, acc);
+}
+
+fn fold_stats(real: &Real, acc: &mut Acc) {
+    acc.node_events += real.st.events.get();
+    for (a, b) in acc.stats.iter_mut().zip(real.st.stats.borrow().iter()) {
+        a.runs += b.runs;
+        a.ok += b.ok;
+        a.soft += b.soft;
+        a.fatal += b.fatal;
+        a.backtracks += b.backtracks;
+    }
+}
+
+// ---------------------------------------------------------------------------------------------
+// Workload
+// ---------------------------------------------------------------------------------------------
+
+/// All strings over {a,b,c} of length <= max_len, shortest first (1093 for max_len 6).
+fn all_inputs(max_len: usize) -> Vec<Vec<char>> {
+    let mut out: Vec<Vec<char>> = vec![vec![]];
+    let mut start = 0;
+    for _ in 0..max_len {
+        let end = out.len();
+        for i in start..end {
+            for c in ['a', 'b', 'c'] {
+                let mut s = out[i].clone();
+                s.push(c);
+                out.push(s);
+            }
+        }
+        start = end;
+    }
+    out
+}
+
+/// One block of the exhaustive enumeration: `op` applied to every combination of its child pools.
+struct Stratum {
+    op: Op,
+    /// per child: 0 = primitives (depth 0), 1 = expressions of depth exactly 1
+    pools: Vec<u8>,
+    size: u128,
+    offset: u128,
+    label: &'static str,
+}
+
+struct Workload {
+    d0: Vec<Expr>,
+    d1: Vec<Expr>,
+    strata: Vec<Stratum>,
+    /// size of the complete space up to `depth`
+    total: u128,
+    /// number of expressions of the space that will be enumerated (a prefix of the fixed order)
+    enumerated: u64,
+    depth: usize,
+    random: u64,
+    seed: u64,
+}
+
+impl Workload {
+    fn new(depth: usize, budget: u64, random: u64, seed: u64) -> Workload {
+        let d0 = expr::depth0();
+        let d1 = expr::depth1_exact();
+        let mut strata: Vec<Stratum> = vec![];
+        let mut offset: u128 = (d0.len() + d1.len()) as u128; // depth <= 1 comes first, as plain lists
+        if depth >= 2 {
+            let combs = expr::enum_combinators();
+            // fixed deterministic order: parent x child pairs first, then ever more deep children
+            let mut add = |label: &'static str, arity: usize, deep: usize| {
+                for (op, ar) in combs.iter().filter(|c| c.1 == arity) {
+                    // all placements of `deep` depth-1 children among `ar` positions
+                    for mask in 0u32..(1 << ar) {
+                        if mask.count_ones() as usize != deep {
+                            continue;
+                        }
+                        let pools: Vec<u8> = (0..*ar).map(|i| ((mask >> (ar - 1 - i)) & 1) as u8).collect();
+                        let size: u128 =
+                            pools.iter().map(|p| if *p == 0 { d0.len() } else { d1.len() } as u128).product();
+                        strata.push(Stratum { op: *op, pools, size, offset, label });
+                        offset += size;
+                    }
+                }
+            };
+            add("unary(depth1)", 1, 1);
+            add("binary(one depth1 child)", 2, 1);
+            add("ternary(one depth1 child)", 3, 1);
+            add("binary(two depth1 children)", 2, 2);
+            add("ternary(two depth1 children)", 3, 2);
+            add("ternary(three depth1 children)", 3, 3);
+        }
+        let total = offset;
+        let enumerated = if (budget as u128) < total { budget } else { total as u64 };
+        Workload { d0, d1, strata, total, enumerated, depth, random, seed }
+    }
+
+    fn items(&self) -> u64 {
+        self.enumerated + self.random
+    }
+
+    /// The i-th work item; None if the expression is outside the documented domain (no context).
+    fn get(&self, i: u64) -> Option<Expr> {
+        let e = if i < self.enumerated {
+            let i = i as usize;
+            if i < self.d0.len() {
+                self.d0[i].clone()
+            } else if i < self.d0.len() + self.d1.len() {
+                self.d1[i - self.d0.len()].clone()
+            } else {
+                let idx = self.strata.partition_point(|s| s.offset + s.size <= i as u128);
+                let s = &self.strata[idx];
+                let pools: Vec<&[Expr]> =
+                    s.pools.iter().map(|p| if *p == 0 { &self.d0[..] } else { &self.d1[..] }).collect();
+                expr::unrank(s.op, &pools, i - s.offset as usize)
+            }
+        } else {
+            // random expression j: its own generator state, independent of thread scheduling
+            let j = i - self.enumerated;
+            let mut rng = Rng(self.seed ^ j.wrapping_mul(0xD1B5_4A32_D192_ED03));
+            rng.next();
+            let depth = 2 + (j % 3) as usize;
+            expr::random_expr(&mut rng, depth, true)
+        };
+        if e.valid(true) { Some(e) } else { None }
+    }
+
+    /// Could this expression be a member of the exhaustively enumerated space?
+    fn in_enumerated_space(&self, e: &Expr) -> bool {
+        fn ops_ok(e: &Expr) -> bool {
+            let i = e.op.info();
+            i.enumerated
+                && (!matches!(e.op, Op::Seq | Op::OrList) || e.kids.len() == 2 || e.kids.len() == 3)
+                && e.kids.iter().all(ops_ok)
+        }
+        e.depth() <= self.depth && ops_ok(e)
+    }
+
+    /// Which strata are complete / partial given the enumerated prefix.
+    fn strata_report(&self) -> Vec<J> {
+        let mut out = vec![];
+        let mut agg: Vec<(&'static str, u128, u128)> = vec![("depth<=1", (self.d0.len() + self.d1.len()) as u128, 0)];
+        agg[0].2 = agg[0].1.min(self.enumerated as u128);
+        for s in &self.strata {
+            if agg.last().unwrap().0 != s.label {
+                agg.push((s.label, 0, 0));
+            }
+            let done = (self.enumerated as u128).saturating_sub(s.offset).min(s.size);
+            let a = agg.last_mut().unwrap();
+            a.1 += s.size;
+            a.2 += done;
+        }
+        for (label, size, done) in agg {
+            out.push(J::obj(vec![
+                ("stratum", J::s(label)),
+                ("size", J::Float(size as f64)),
+                ("enumerated", J::Float(done as f64)),
+                ("complete", J::Bool(done == size)),
+            ]));
+        }
+        out
+    }
+}
+
+fn run_workload(w: &Workload, inputs: &[Vec<char>], threads: usize) -> Acc {
+    let next = AtomicU64::new(0);
+    let total = w.items();
+    let chunk: u64 = 8;
+    let accs: Vec<Acc> = std::thread::scope(|s| {
+        let handles: Vec<_> = (0..threads)
+            .map(|_| {
+                s.spawn(|| {
+                    let mut acc = Acc::new();
+                    loop {
+                        let start = next.fetch_add(chunk, Ordering::Relaxed);
+                        if start >= total {
+                            break;
+                        }
+                        for i in start..(start + chunk).min(total) {
+                            match w.get(i) {
+                                // a random expression that may also be part of the enumerated space is
+                                // not counted as "distinct" (conservative: never counted twice)
+                                Some(mut e) => {
+                                    let counted_elsewhere = i >= w.enumerated && w.in_enumerated_space(&e);
+                                    let before = acc.nontrivial.len();
+                                    process(&mut e, inputs, &mut acc, i < w.enumerated);
+                                    if counted_elsewhere && acc.nontrivial.len() > before {
+                                        let mut h = std::collections::hash_map::DefaultHasher::new();
+                                        e.render().hash(&mut h);
+                                        acc.nontrivial.remove(&h.finish());
+                                    }
+                                }
+                                None => acc.skipped_invalid += 1,
+                            }
+                        }
+                    }
+                    acc
+                })
+            })
+            .collect();
+        handles.into_iter().map(|h| h.join().expect("worker thread failed (internal error)")).collect()
+    });
+    let mut all = Acc::new();
+    for a in accs {
+        all.merge(a);
+    }
+    all
+}
+
+// ---------------------------------------------------------------------------------------------
+// Reporting
+// ---------------------------------------------------------------------------------------------
+
+fn trace_json(e: &Expr, real: &Real) -> J {
+    let mut ops = vec![Op::Any; e.size()];
+    fn fill(e: &Expr, ops: &mut [Op]) {
+        ops[e.id] = e.op;
+        for k in &e.kids {
+            fill(k, ops);
+        }
+    }
+    fill(e, &mut ops);
+    J::Arr(
+        real.st
+            .trace
+            .borrow()
+            .iter()
+            .map(|ev| {
+                J::obj(vec![
+                    ("node", J::Num(ev.id as u64)),
+                    ("op", J::s(ops[ev.id].name())),
+                    ("depth", J::Num(ev.depth as u64)),
+                    ("before", J::Num(ev.before as u64)),
+                    ("class", J::s(real::class_name(ev.class))),
+                    ("after", J::Num(ev.after as u64)),
+                ])
+            })
+            .collect(),
+    )
+}
+
+fn sample(e: &mut Expr, input: &str) -> J {
+    e.number();
+    let chars: Vec<char> = input.chars().collect();
+    let mut real = compile(e).expect("sample build");
+    real.st.trace_on.set(true);
+    let r = run_real(&mut real, &chars);
+    let m = model::run(e, &chars, FUEL());
+    J::obj(vec![
+        ("expr", J::s(e.render())),
+        ("input", J::s(input)),
+        ("real", J::s(r.to_string())),
+        ("model", J::s(m.to_string())),
+        ("trace", trace_json(e, &real)),
+    ])
+}
+
+fn report(w: &Workload, acc: &Acc, tier: &str, seed: u64, secs: f64, threads: usize) -> J {
+    // per combinator statistics, merged by library combinator name
+    let mut per: BTreeMap<&'static str, Stat> = BTreeMap::new();
+    for info in OPS {
+        let s = acc.stats[info.op as usize];
+        let t = per.entry(info.comb).or_default();
+        t.runs += s.runs;
+        t.ok += s.ok;
+        t.soft += s.soft;
+        t.fatal += s.fatal;
+        t.backtracks += s.backtracks;
+    }
+    let per_json = J::Obj(
+        per.iter()
+            .map(|(k, s)| {
+                (
+                    k.to_string(),
+                    J::obj(vec![
+                        ("runs", J::Num(s.runs)),
+                        ("soft", J::Num(s.soft)),
+                        ("fatal", J::Num(s.fatal)),
+                        ("ok", J::Num(s.ok)),
+                        ("backtracks", J::Num(s.backtracks)),
+                    ]),
+                )
+            })
+            .collect(),
+    );
+    // signatures in a stable order
+    let mut sigs: Vec<(String, &Sig)> = acc.sig_counts.keys().map(|s| (s.render(), s)).collect();
+    sigs.sort();
+    let counts_sorted = sigs.clone();
+    let counts = J::Obj(counts_sorted.iter().map(|(name, s)| (name.clone(), J::Num(acc.sig_counts[*s]))).collect());
+    // witnesses: the local (per-node) signatures first, then the root mismatches, most frequent first
+    sigs.sort_by_key(|(name, s)| (s.root.is_some(), std::cmp::Reverse(acc.sig_counts[*s]), name.clone()));
+    // failures: round-robin over the signatures (smallest witness of each first), at most 200
+    let mut failures = vec![];
+    'outer: for round in 0..WITNESSES_PER_SIG {
+        for (name, s) in &sigs {
+            if let Some(wit) = acc.witnesses.get(*s).and_then(|l| l.get(round)) {
+                if failures.len() >= 200 {
+                    break 'outer;
+                }
+                failures.push(J::obj(vec![
+                    ("sig", J::s(name.clone())),
+                    ("what", J::s(wit.what.clone())),
+                    ("case", J::obj(vec![("expr", J::s(wit.expr.clone())), ("input", J::s(wit.input.clone()))])),
+                ]));
+            }
+        }
+    }
+    // three fixed samples: the first three valid random expressions of this seed
+    let mut samples = vec![];
+    let sample_inputs = ["abcabc", "aab", "ba"];
+    let mut j = 0u64;
+    while samples.len() < 3 && j < 1000 {
+        let mut rng = Rng(seed ^ j.wrapping_mul(0xD1B5_4A32_D192_ED03));
+        rng.next();
+        let mut e = expr::random_expr(&mut rng, 2 + (j % 3) as usize, true);
+        if e.valid(true) && e.size() <= 12 {
+            samples.push(sample(&mut e, sample_inputs[samples.len()]));
+        }
+        j += 1;
+    }
+    let complete = (w.enumerated as u128) == w.total;
+    J::obj(vec![
+        ("tool", J::s("pcmon")),
+        ("property", J::s("C20")),
+        ("tier", J::s(tier)),
+        ("seed", J::Num(seed)),
+        ("threads", J::Num(threads as u64)),
+        ("seconds", J::Float(secs)),
+        ("fuel", J::Num(FUEL() as u64)),
+        ("no_progress_shortcut", J::Bool(types::shortcut())),
+        ("max_fuel_used_by_terminating_run", J::Num(acc.max_fuel_used as u64)),
+        (
+            "terminating_runs_using_more_fuel_than",
+            J::Obj(FUEL_BUCKETS.iter().zip(acc.fuel_hist.iter()).map(|(t, n)| (t.to_string(), J::Num(*n))).collect()),
+        ),
+        ("inputs", J::Num(1093)),
+        ("evaluations", J::Num(acc.evaluations)),
+        ("expressions", J::Num(acc.expressions)),
+        ("skipped_without_context", J::Num(acc.skipped_invalid)),
+        ("random_expressions", J::Num(w.random)),
+        ("distinct_nontrivial", J::Num(acc.nontrivial_enumerated + acc.nontrivial.len() as u64)),
+        ("both_diverged", J::Num(acc.both_diverged)),
+        ("exhaustive_depth", J::Num(w.depth as u64)),
+        ("exhaustive_complete", J::Bool(complete)),
+        ("exhaustive_space", J::Float(w.total as f64)),
+        ("exhaustive_enumerated", J::Num(w.enumerated)),
+        ("exhaustive_fraction", J::Float(w.enumerated as f64 / w.total as f64)),
+        ("exhaustive_strata", J::Arr(w.strata_report())),
+        ("node_events", J::Num(acc.node_events)),
+        ("per_combinator", per_json),
+        ("samples", J::Arr(samples)),
+        ("failures", J::Arr(failures)),
+        ("failure_signature_counts", counts),
+    ])
+}
+
+// ---------------------------------------------------------------------------------------------
+// Replay
+// ---------------------------------------------------------------------------------------------
+
+fn replay(expr_text: &str, input: &str) -> i32 {
+    let mut e = match Expr::parse(expr_text) {
+        Ok(e) => e,
+        Err(m) => {
+            eprintln!("cannot parse expression: {}", m);
+            return 2;
+        }
+    };
+    if !e.valid(true) {
+        eprintln!("expression uses a context where none is available (ctx_parser would panic)");
+        return 2;
+    }
+    let size = e.number();
+    let chars: Vec<char> = input.chars().collect();
+    println!("expr   : {}   ({} nodes, depth {})", e.render(), size, e.depth());
+    println!("input  : {:?}", input);
+    let mut real = match compile(&e) {
+        Ok(r) => r,
+        Err(m) => {
+            println!("VIOLATION root:{}:panic-on-build  {}", e.op.comb(), m);
+            return 1;
+        }
+    };
+    real.st.trace_on.set(true);
+    let r = run_real(&mut real, &chars);
+    let m = model::run(&e, &chars, FUEL());
+    let mut ops = vec![Op::Any; size];
+    fn fill(e: &Expr, ops: &mut [Op]) {
+        ops[e.id] = e.op;
+        for k in &e.kids {
+            fill(k, ops);
+        }
+    }
+    fill(&e, &mut ops);
+    println!("trace (in order of completion; node id, operator, position before -> result @ position after):");
+    let trace = real.st.trace.borrow();
+    let shown = trace.len().min(80);
+    for ev in trace.iter().take(shown) {
+        let res = match ev.class {
+            real::OK => format!("Ok({})", ev.val.as_ref().map(|v| v.to_string()).unwrap_or_default()),
+            real::SOFT => format!("Soft({})", ev.err),
+            _ => format!("Fatal({})", ev.err),
+        };
+        println!("  {}#{} {} : {} -> {} @{}", "  ".repeat(ev.depth), ev.id, ops[ev.id].name(), ev.before, res, ev.after);
+    }
+    if trace.len() > shown {
+        println!("  ... {} more events", trace.len() - shown);
+    }
+    println!("real   : {}", r);
+    println!("model  : {}", m);
+    let viols = real.st.viol.borrow();
+    match judge(&e, &r, &m, &viols, real.st.moved_soft.get()) {
+        Verdict::BothDiverged => {
+            println!("both diverged (fuel {}): not judged", FUEL());
+            0
+        }
+        Verdict::Judged(list) => {
+            for (sig, what) in &list {
+                println!("VIOLATION {}  {}", sig.render(), what);
+            }
+            if list.is_empty() {
+                println!("no violation");
+                0
+            } else {
+                1
+            }
+        }
+    }
+}
+
+// ---------------------------------------------------------------------------------------------
+// Miri subset: ~2000 expressions x 4 small inputs, single thread
+// ---------------------------------------------------------------------------------------------
+
+fn miri_subset() -> i32 {
+    let inputs: Vec<Vec<char>> = ["", "ab", "aabc", "cba"].iter().map(|s| s.chars().collect()).collect();
+    let mut acc = Acc::new();
+    let d1 = expr::depth1_exact();
+    let mut n = 0;
+    for e in expr::depth0() {
+        process(&mut e.clone(), &inputs, &mut acc, true);
+        n += 1;
+    }
+    // every 4th depth-1 expression (~1700), then 300 random deeper ones
+    for e in d1.iter().step_by(4) {
+        if e.valid(true) {
+            process(&mut e.clone(), &inputs, &mut acc, true);
+            n += 1;
+        }
+    }
+    let mut j = 0u64;
+    let mut r = 0;
+    while r < 300 {
+        let mut rng = Rng(7 ^ j.wrapping_mul(0xD1B5_4A32_D192_ED03));
+        rng.next();
+        let mut e = expr::random_expr(&mut rng, 2 + (j % 2) as usize, true);
+        j += 1;
+        if e.valid(true) && e.size() <= 20 {
+            process(&mut e, &inputs, &mut acc, false);
+            r += 1;
+            n += 1;
+        }
+    }
+    println!(
+        "miri-subset: {} expressions, {} evaluations, {} both-diverged, {} node events, {} failure signatures",
+        n,
+        acc.evaluations,
+        acc.both_diverged,
+        acc.node_events,
+        acc.sig_counts.len()
+    );
+    0
+}
+
+// ---------------------------------------------------------------------------------------------
+// main
+// ---------------------------------------------------------------------------------------------
+
+fn main() {
+    // panics of the code under test are findings and are reported as such; keep them quiet
+    let default_hook = std::panic::take_hook();
+    std::panic::set_hook(Box::new(move |info| {
+        if !IN_REAL.with(|f| f.get()) {
+            default_hook(info);
+        }
+    }));
+
+    let args: Vec<String> = std::env::args().skip(1).collect();
+    let mut tier = "quick".to_string();
+    let mut seed: u64 = 1;
+    let mut out: Option<String> = None;
+    let mut threads: usize = 16;
+    let mut random: Option<u64> = None;
+    let mut budget: Option<u64> = None;
+    let mut i = 0;
+    while i < args.len() {
+        let need = |i: usize| -> &String {
+            args.get(i + 1).unwrap_or_else(|| {
+                eprintln!("missing value for {}", args[i]);
+                std::process::exit(2)
+            })
+        };
+        match args[i].as_str() {
+            "--replay" => {
+                let e = need(i).clone();
+                let input = args.get(i + 2).cloned().unwrap_or_default();
+                std::process::exit(replay(&e, &input));
+            }
+            "--miri-subset" => std::process::exit(miri_subset()),
+            "--tier" => {
+                tier = need(i).clone();
+                i += 1;
+            }
+            "--seed" => {
+                seed = need(i).parse().expect("--seed N");
+                i += 1;
+            }
+            "--out" => {
+                out = Some(need(i).clone());
+                i += 1;
+            }
+            "--fuel" => {
+                FUEL_CFG.store(need(i).parse().expect("--fuel N"), Ordering::Relaxed);
+                i += 1;
+            }
+            "--no-shortcut" => types::SHORTCUT.store(false, Ordering::Relaxed),
+            "--threads" => {
+                threads = need(i).parse().expect("--threads N");
+                i += 1;
+            }
+            "--random" => {
+                random = Some(need(i).parse().expect("--random N"));
+                i += 1;
+            }
+            "--depth2-budget" => {
+                budget = Some(need(i).parse().expect("--depth2-budget N"));
+                i += 1;
+            }
+            other => {
+                eprintln!("unknown argument {}", other);
+                std::process::exit(2);
+            }
+        }
+        i += 1;
+    }
+    let (depth, default_random, default_budget) = match tier.as_str() {
+        "quick" => (1, 300_000, u64::MAX),
+        "thorough" => (2, 2_000_000, 40_000_000),
+        _ => {
+            eprintln!("--tier quick|thorough");
+            std::process::exit(2);
+        }
+    };
+    let w = Workload::new(depth, budget.unwrap_or(default_budget), random.unwrap_or(default_random), seed);
+    let inputs = all_inputs(6);
+    assert_eq!(inputs.len(), 1093);
+    let t0 = Instant::now();
+    let acc = run_workload(&w, &inputs, threads);
+    let secs = t0.elapsed().as_secs_f64();
+    let j = report(&w, &acc, &tier, seed, secs, threads);
+    let mut text = String::new();
+    j.write(&mut text);
+    text.push('\n');
+    match out {
+        Some(path) => {
+            if let Err(e) = std::fs::write(&path, &text) {
+                eprintln!("cannot write {}: {}", path, e);
+                std::process::exit(3);
+            }
+        }
+        None => print!("{}", text),
+    }
+    eprintln!(
+        "pcmon {}: {} expressions, {} evaluations, {} both-diverged, {} signatures, {:.1}s",
+        tier,
+        acc.expressions,
+        acc.evaluations,
+        acc.both_diverged,
+        acc.sig_counts.len(),
+        secs
+    );
+}
